@@ -144,4 +144,8 @@ def postMulRulesRef : List Rule := [.multiply, .divide]
     left-to-right quotient `a₀/a₁/…/aₙ₋₁` the power `1 − (n − 1) = 2 − n` -/
 def powerMapRef : List (String × (Int → Int)) := [("multiply", fun n => n), ("divide", fun n => 2 - n)]
 
+/-- how many numbers `ufunc.reduce(x, axis=…)` combines into each result: NumPy reduces along
+    the given axis, and along axis 0 when none is given (`axis=None` must be asked for) -/
+def reduceCountRef (shape : List Nat) (axisKw : Option Nat) : Nat := shape.getD (axisKw.getD 0) 1
+
 end Unyt.Ref.C04
